@@ -288,7 +288,8 @@ def get_cauchy_point(
     delta_t_min = 0 if delta_t_min < 0 else delta_t_min
     t_old += delta_t_min
 
-    x_cp[t >= t_cur] = (x + t_old * d)[t >= t_cur]
+    # d is zero for the variables already fixed at a bound: only the free ones move
+    x_cp += t_old * d
 
     c += delta_t_min * p
 
